@@ -482,6 +482,9 @@ func runC11(w *World, r *Report) {
 		}
 	}
 
+	r.Rule("C11.prehandler-skipped-for-subgraphs-only", "the interrupt handler marks a task to skip its state pre-handler on resume only when the task's node is an interrupted sub-graph (whose pre-handler already ran and whose saved input is the prepared one); pending and rerun tasks are saved with their RAW input and get their pre-handler on resume (shared with C05.skip-prehandler)", 1)
+	skipMarkOnlySubGraphs(w, r, "C11.prehandler-skipped-for-subgraphs-only")
+
 	r.Rule("C11.state-required", "addNode rejects nodes needing state when the graph has no state generator", 1)
 	addNode := w.Fn("compose", "graph.addNode")
 	fSG := w.Field("compose", "graph", "stateGenerator")
